@@ -250,7 +250,9 @@ class ConnectionPool(object):
             except KeyError:
                 return
             else:
-                yield from release_task
+                # Shield: the release belongs to another client and must not
+                # be cancelled along with the client that waits for it here.
+                yield from asyncio.shield(release_task)
 
     @asyncio.coroutine
     def session(self, host: str, port: int, use_ssl: bool=False):
